@@ -23,6 +23,7 @@ import (
 	"runtime"
 	"runtime/debug"
 	"sort"
+	"strings"
 	"sync"
 	"testing"
 	"time"
@@ -42,8 +43,10 @@ import (
 	"github.com/aperturerobotics/bifrost/util/extra25519"
 	"github.com/aperturerobotics/bifrost/util/rwc"
 	protobuf_go_lite "github.com/aperturerobotics/protobuf-go-lite"
+	"github.com/cloudflare/circl/group"
 	"github.com/zeebo/blake3"
 	"golang.org/x/crypto/chacha20poly1305"
+	"verifharness/g3env"
 	"verifharness/g4pipe"
 	"verifharness/keys"
 	"verifharness/vf"
@@ -749,6 +752,73 @@ func buildTargets(r *vf.Run) []*target {
 		t.inputs = append(t.inputs, pbHostile(1<<20, 3, 5)...)
 		t.inputs = append(t.inputs, pbHostile(1<<20, 3, 6)...)
 		addMutants(t, msgs, nMut/2)
+		// attacker-made, structurally valid envelopes (g3env/crafted.go): grants that
+		// DO decrypt for recipient 0 / 1 and carry crafted share lists (duplicate,
+		// equivalent-encoding, zero, oversized ids, thousands of shares, wrong
+		// lengths ...) under every threshold, so that the code BEHIND the
+		// authenticated decryption (share decoding, de-duplication, interpolation)
+		// is reached. Byte-level mutants never get there. (Appended last: phase A measures
+		// the first inputs of a target one at a time, these run in phase B.)
+		{
+			crng := r.Rand("c40-envelope-crafted")
+			// sanity (against vacuity): a crafted grant with ordinary shares is decrypted
+			{
+				in := &envelope.EnvelopeGrantInner{Shares: []*envelope.EnvelopeShare{{Id: g3env.SmallID(7), Value: g3env.SmallID(9)}}}
+				env, err := g3env.CraftEnvelope(envs[0], ctx, pubs, 0, [][]byte{mustMarshal(in)}, "only", 5)
+				if err != nil {
+					panic(err)
+				}
+				var res *envelope.EnvelopeUnlockResult
+				pk, pd := vf.Try(func() { _, res, err = envelope.UnlockEnvelope(ctx, env, privs) })
+				if pk || err != nil || len(res.GetUnlockedGrantIndexes()) != 1 || res.GetSharesAvailable() != 1 {
+					r.Inconclusive(fmt.Sprintf("envelope target: an attacker-made grant is not decrypted by UnlockEnvelope (panic=%v %s err=%v result=%v): the harness' replica of the grant encryption context is out of date, crafted envelopes would test nothing", pk, pd, err, res))
+				}
+			}
+			// how many of the candidate encodings does circl itself map to one scalar
+			{
+				gr := group.Ristretto255
+				ref := gr.NewScalar()
+				same := 0
+				if ref.UnmarshalBinary(g3env.SmallID(33)) == nil {
+					for _, e := range g3env.EquivalentIDs(33) {
+						sc := gr.NewScalar()
+						if sc.UnmarshalBinary(e) == nil && sc.IsEqual(ref) {
+							same++
+						}
+					}
+				}
+				r.Extra("envelope_crafted_encodings_of_one_share_id", same)
+			}
+			nCraft := r.N(40, 300) // per kind
+			thresholds := []uint32{0, 1, 1, 2, 2, 3, 4, 7, 15, 100, 1<<31 - 1, 1<<32 - 1}
+			for _, kind := range g3env.CraftKinds {
+				big := kind == "many-shares" || strings.HasPrefix(kind, "thousands-")
+				n := nCraft
+				if big {
+					n = nCraft / 5
+				}
+				for i := 0; i < n; i++ {
+					inners, err := g3env.CraftInners(crng, kind, 2)
+					if err != nil {
+						r.Count("envelope_crafted_not_marshallable", 1)
+						continue
+					}
+					slot := crng.IntN(2)
+					if crng.IntN(12) == 0 {
+						slot = 2 // encrypted to the recipient whose private key is not offered
+					}
+					layout := g3env.CraftLayouts[crng.IntN(len(g3env.CraftLayouts))]
+					thr := thresholds[crng.IntN(len(thresholds))]
+					env, err := g3env.CraftEnvelope(envs[crng.IntN(len(envs))], ctx, pubs, slot, inners, layout, thr)
+					if err != nil {
+						panic(err)
+					}
+					t.inputs = append(t.inputs, input{data: mustMarshal(env), note: fmt.Sprintf("attacker-made envelope: shares=%s layout=%s threshold=%d grant encrypted to keypair %d", kind, layout, thr, slot)})
+					r.Count("envelope_crafted_inputs", 1)
+					r.Distinct("envelope_crafted_kinds", kind+"/"+layout)
+				}
+			}
+		}
 		targets = append(targets, t)
 	}
 
@@ -901,7 +971,7 @@ type stats struct {
 func TestCheck(t *testing.T) {
 	r := vf.Start(t, "C40", vf.Exploration)
 	defer r.Finish()
-	r.SetRule("per decoder: seeds = valid encodings from the matching real encoder; inputs = seeds + hostile length prefixes (limit+1, 16 MiB, 100 MB, 2^30, 2^31-1, 2^31, 2^32-1, as uvarint / LE32 / protobuf field length / compressed-payload length, with almost no data behind them) + seeded structured mutants (1-3 of: bit flip, interesting byte, truncate, delete, duplicate, insert, hostile varint, hostile LE32, splice, random tail); for encrypted targets also mutated plaintexts encrypted to the recipient. " +
+	r.SetRule("per decoder: seeds = valid encodings from the matching real encoder; inputs = seeds + hostile length prefixes (limit+1, 16 MiB, 100 MB, 2^30, 2^31-1, 2^31, 2^32-1, as uvarint / LE32 / protobuf field length / compressed-payload length, with almost no data behind them) + seeded structured mutants (1-3 of: bit flip, interesting byte, truncate, delete, duplicate, insert, hostile varint, hostile LE32, splice, random tail); for encrypted targets also mutated plaintexts encrypted to the recipient; for envelopes additionally attacker-made, structurally VALID envelopes: grants that decrypt for an offered key (anyone can encrypt to a public key under the public grant context) carrying crafted share lists - exact and equivalent-encoding duplicates of one share id (n, n+L, ignored top bits: 16 encodings of one scalar; first / late / paired / spread over two grants), zero ids and their equivalents, oversized and wrong-length ids and values, all-ones, thousands of duplicate or distinct shares, equal / non-canonical values - x layouts {only, appended, prepended, replacing the first grant} x thresholds {0..7, 15, 100, 2^31-1, 2^32-1}, so that share decoding, de-duplication and interpolation behind the authenticated decryption are reached (the run is inconclusive if a crafted grant with ordinary shares is not decrypted). " +
 		"Oracle: no panic (recovered in-goroutine; decoders that run code on their own goroutine are journaled per input so the runner attributes a crash); no (nil, nil) result; allocation: TotalAlloc delta of one decode on a locked goroutine with GC paused <= configured limit + c*len(input) + 256 KiB (c=256; envelope 2048). Non-trivial = decoder returned (value or error); distinct = distinct (target, input bytes).")
 	tBuild := time.Now()
 	targets := buildTargets(r)
